@@ -229,6 +229,13 @@ def make_step(rng, g, kind=None, angles='generic'):
             t = [ang(), ang(), ang()]; t[rng.randrange(3)] = 0.0
             return {'kind': kind, 'alpha': t[0], 'beta': t[1], 'gamma': t[2]}
         return {'kind': kind, 'alpha': ang(), 'beta': ang(), 'gamma': ang()}
+    if rng.random() < 0.3:
+        # an explicit matrix written with INTEGER entries (a lattice rotation: quarter / half turns about the axes), carried as an
+        # integer ndarray or as nested lists of ints -- what a user types by hand (round-8 seed C10-r8m1: a homogeneous matrix allocated
+        # with the dtype of the argument truncates the shift c - R.c)
+        import complexgen as _cg
+        R = _cg.lattice_rotations()[rng.randrange(24)]
+        return {'kind': kind, 'mat': [float(x) for x in R.ravel()], 'carrier': rng.choice(['int-array', 'int-lists'])}
     return {'kind': kind, 'mat': [float(x) for x in rand_rot(g).ravel()]}
 
 
@@ -427,6 +434,16 @@ def search_cases(ctx):
 # real code
 # ----------------------------------------------------------------------------------------------
 
+def matrix_of(st):
+    """the explicit matrix in the carrier the step asks for (float ndarray by default)"""
+    M = np.array(st['mat']).reshape(3, 3)
+    if st.get('carrier') == 'int-array':
+        return np.rint(M).astype(int)
+    if st.get('carrier') == 'int-lists':
+        return [[int(round(v)) for v in row] for row in M]
+    return M
+
+
 def apply_real(db, st):
     kw = dict(st['kwargs'])
     if st['kind'] == 'translation':
@@ -436,7 +453,7 @@ def apply_real(db, st):
     elif st['kind'] == 'rot_euler':
         TF.rot_euler(db, st['alpha'], st['beta'], st['gamma'], **kw)
     else:
-        TF.rot_mat(db, np.array(st['mat']).reshape(3, 3), **kw)
+        TF.rot_mat(db, matrix_of(st), **kw)
 
 
 def impl(ctx, c):
@@ -472,7 +489,7 @@ def impl(ctx, c):
             elif st['kind'] == 'rot_euler':
                 Y = TF.rotation_euler(X.copy(), st['alpha'], st['beta'], st['gamma'], ctr)
             else:
-                Y = TF.rotate(X.copy(), np.array(st['mat']).reshape(3, 3), ctr)
+                Y = TF.rotate(X.copy(), matrix_of(st), ctr)
         except Exception as e:
             return exc_tag(e)
         return {'xyz': [[rat(v) for v in row] for row in np.asarray(Y, float)]}
